@@ -27,8 +27,14 @@ OUT_ROOT = os.environ.get("VERIF_SEEDED_OUT", os.path.join(ROOT, "seeded"))
 ENV = dict(os.environ, CARGO_NET_OFFLINE="true")
 
 
-def sh(cmd, cwd=None, env=ENV):
-    return subprocess.run(cmd, shell=isinstance(cmd, str), cwd=cwd, env=env, stdout=subprocess.PIPE, stderr=subprocess.STDOUT, text=True)
+def sh(cmd, cwd=None, env=ENV, timeout=None):
+    try:
+        return subprocess.run(cmd, shell=isinstance(cmd, str), cwd=cwd, env=env, stdout=subprocess.PIPE, stderr=subprocess.STDOUT, text=True, timeout=timeout)
+    except subprocess.TimeoutExpired as e:
+        # a test binary that never returns (deadlock demonstrations): end it
+        subprocess.run("for p in $(ps aux | grep '/target/debug/deps/' | grep -v grep | awk '{print $2}'); do kill -9 $p; done", shell=True)
+        out = e.stdout.decode(errors="replace") if isinstance(e.stdout, bytes) else (e.stdout or "")
+        return subprocess.CompletedProcess(cmd, 124, out + "\nTIMEOUT", None)
 
 
 def ensure_sv():
@@ -53,7 +59,7 @@ def demo_place(demo_path, prop, variant):
 
 
 def run_suite(cwd):
-    p = sh("cargo test --workspace --no-fail-fast --offline 2>&1", cwd=cwd)
+    p = sh("cargo test --workspace --no-fail-fast --offline 2>&1", cwd=cwd, timeout=2400)
     passed = failed = 0
     failed_tests = []
     for l in p.stdout.splitlines():
@@ -74,7 +80,10 @@ def run_demo(cwd, place):
         cmd = f"cargo test -p cachelito-async --test {name} --offline 2>&1"
     else:
         cmd = f"cargo test -p cachelito --test {name} --offline 2>&1"
-    p = sh(cmd, cwd=cwd)
+    p = sh(cmd, cwd=cwd, timeout=600)
+    if p.returncode == 124:
+        # a demonstration that never returns (deadlock demos) counts as failing
+        return False, True, p.stdout
     ok = re.search(r"test result: ok", p.stdout) is not None and "FAILED" not in p.stdout
     ran = "test result" in p.stdout
     return ok, ran, p.stdout
@@ -128,12 +137,15 @@ def main():
     # demonstration without the change
     shutil.copy(demo, os.path.join(SV, place))
     ok0, ran0, log0 = run_demo(SV, place)
-    # with the change: whole suite + demonstration
+    # with the change: the demonstration, then the whole pre-existing suite (without the demonstration,
+    # which may never return when the change is a deadlock)
     a = sh(["git", "-C", SV, "apply", patch])
     assert a.returncode == 0, a.stdout
-    passed, failed, failed_tests, cerr, log = run_suite(SV)
     demo_name = os.path.basename(place)[:-3]
     ok1, ran1, log1 = run_demo(SV, place)
+    os.remove(os.path.join(SV, place))
+    passed, failed, failed_tests, cerr, log = run_suite(SV)
+    shutil.copy(demo, os.path.join(SV, place))
     sh(["git", "-C", SV, "checkout", "--", "."])
     os.remove(os.path.join(SV, place))
     demo_tests_failed = failed - 0
